@@ -205,3 +205,88 @@ PROPS["C06"] = dict(
     assumptions=[],
     trusted_base=TB_COMMON,
 )
+
+# ------------------------------------------------------------------------------------ C01 / C02 / C17
+
+NI_ONLY = {"nightly_forms_only": "1"}
+
+
+def _c01_floors(m, tier):
+    out = need(m, "len_mod16", range(16), "message length residues mod 16")
+    out += need(m, "len_mod64", range(64), "message length residues mod 64")
+    ne, no = len(m.cov.get("enc_form", {})), len(m.cov.get("open_form", {}))
+    if ne < 25:
+        out.append("only %d of 25 encryption forms (20 stable + 5 heap/locked) driven" % ne)
+    if no < 22:
+        out.append("only %d of 22 opening forms (18 stable + 4 heap/locked) driven" % no)
+    for dim, kv in m.cov.items():
+        if dim.startswith("enc_form_x_len_mod16[") and len(kv) < 16:
+            out.append("%s saw only %d residues" % (dim, len(kv)))
+    return out
+
+
+PROPS["C01"] = dict(
+    level="exploration",
+    technique="runtime differential monitoring: every encryption/open entry point x container type executed on every message length, ciphertext bytes compared with libsodium, cross-opening in both directions, sealed-box construction re-derived; Python XSalsa20-Poly1305 / X25519 model offline",
+    level_text="25 encryption forms and 22 opening forms (classic easy/detached/in-place/afternm/seal and the object API over array, stack, Vec, heap, locked and read-only-locked "
+               "containers) are run on every message length 0..=320 (quick) / 0..=1100 (thorough) plus multi-KiB lengths with seeded keys including all-zero/all-0xff keys and nonces; "
+               "each ciphertext must equal libsodium's bytes and each libsodium ciphertext must open. Keys, nonces and contents are sampled; lengths are enumerated.",
+    level_note="libsodium is the specification named by the property; sealed boxes are checked by libsodium opening them and by re-deriving nonce = BLAKE2b-24(epk||rpk).",
+    runs=lambda tier: [dict(build="st", monitor="c01"), dict(build="ni", monitor="c01", opts=NI_ONLY)],
+    offline=offline.check_c01,
+    models=["salsa20", "poly1305", "x25519"],
+    floors=_c01_floors,
+    rule="a case is (message length, key set) driven through every form; distinct by (length, key set index); all cases non-trivial (authentic encrypt + open); "
+         "each form is additionally tracked per length residue mod 16",
+    assumptions=["key pairs come from seeds through libsodium's crypto_box_seed_keypair (C13 decides dryoc's own seeded generation)"],
+    trusted_base=TB_COMMON,
+)
+
+
+def _fault_floors(pid):
+    def floors(m, tier):
+        cells = m.cov.get("form_x_component_x_fault", {})
+        out = []
+        for comp in ["tag|bit_flip", "body|bit_flip", "nonce|bit_flip", "key|bit_flip", "ephemeral_pk|bit_flip", "header|bit_flip",
+                     "associated_data|bit_flip", "encrypted_tag_byte|bit_flip", "ciphertext|truncate", "ciphertext|extend"]:
+            if not any(k.endswith("|" + comp) for k in cells):
+                out.append("fault class %s never exercised" % comp)
+        forms = {k.split("|")[0] for k in cells}
+        if len(forms) < 24:
+            out.append("only %d of 24 opening forms (18 AE + 4 heap/locked + 2 stream) reached by faults" % len(forms))
+        return out
+    return floors
+
+
+_FAULT_RULE = ("a case is one authentic message (form family, message length, AD length, stream position) with exactly one corruption: every single bit of tag, body, nonce, "
+               "symmetric/precomputed/stream key, stream header, associated data, sealed-box ephemeral key, every truncation 1..=len, extensions by {1,15,16,17,64} bytes of 0x00/0xff; "
+               "the enumeration is exhaustive for each authentic message; distinct = authentic messages; evaluations = (corruption, opening form) pairs")
+
+PROPS["C02"] = dict(
+    level="fault_enumeration",
+    technique="runtime fault enumeration: exhaustive single-corruption family injected at the wire/key boundary of every opening entry point, oracle = Err for every corrupted input and Ok for the control (libsodium must reject the same input, else inconclusive)",
+    level_text="For each authentic message the complete single-corruption family is enumerated and every opening form of its family is called; the fault space per message is finite and covered "
+               "completely, message lengths are 8 boundary lengths (quick) or 0..=96 + {255,256,257,1024} (thorough). Box public/secret key bits are not flipped (X25519 ignores bit 255 and clamps "
+               "5 scalar bits, so those are not corruptions of the shared key); the sealed-box ephemeral key is.",
+    level_note="Keys and message contents are sampled once per authentic message; the enumeration over corruptions is exhaustive.",
+    runs=lambda tier: [dict(build="st", monitor="c02"), dict(build="ni", monitor="c02", opts=NI_ONLY)],
+    floors=_fault_floors("C02"),
+    exhaustive=True,
+    rule=_FAULT_RULE,
+    assumptions=["the exhaustive flag refers to the corruption family per authentic message, not to the space of keys/messages"],
+    trusted_base=TB_COMMON,
+)
+
+PROPS["C17"] = dict(
+    level="fault_enumeration",
+    technique="runtime fault enumeration: the C02 corruption family replayed against every classic open function with sentinel-filled caller buffers; oracle = after Err every output byte is its pre-call value or zero and the stream tag variable is untouched",
+    level_text="Same exhaustive single-corruption family as C02; after every rejected open the caller-visible message buffer (copying forms: pre-filled with a zero-free sentinel; in-place forms: the "
+               "tampered input itself) and the stream tag output are inspected byte by byte under the most permissive reading of 'left as they were or zeroed'.",
+    level_note="A leaked keystream-XORed byte escapes the per-byte test only if it happens to equal the sentinel byte or zero (probability 2/256 per byte); over the enumerated family a leak of any length is caught essentially always.",
+    runs=lambda tier: [dict(build="st", monitor="c17"), dict(build="ni", monitor="c17", opts=NI_ONLY)],
+    floors=_fault_floors("C17"),
+    exhaustive=True,
+    rule=_FAULT_RULE,
+    assumptions=["object-API forms are checked only for 'returns nothing but an error'"],
+    trusted_base=TB_COMMON,
+)
